@@ -445,16 +445,33 @@ def _scen_job(choice):
     for i, m in enumerate(ctx.mactions):
         if m is not None:
             idx[(m["type"], m["name"], tuple(m["target"]))] = i
+    plan_idx = []
     for act in plan:
         i = idx.get((act["type"], act["name"], tuple(act["target"])))
         if i is None:
             break
-        ctx.seam.arm(draw_values(act["prob"])["below"])
-        env2.step(ctx.actions[i])
-    env2.reset()
-    root2 = env2.current_state
-    out["second_episode_roots"] = 1
-    if root2.tensor.tobytes() != keys[0]:
+        plan_idx.append((i, act["prob"]))
+    # histories before the episode that is measured: the whole plan; an episode abandoned half way; the same followed
+    # by the public helper generate_initial_state(); a double reset
+    half = plan_idx[: max(1, len(plan_idx) // 2)]
+    histories = [("plan,reset", plan_idx, ()), ("half,reset", half, ()), ("half,generate_initial_state,reset", half, ("I",)),
+                 ("half,reset,reset", half, ("R",)), ("one_step,generate_initial_state,reset", plan_idx[:1], ("I",))]
+    out["second_episode_roots"] = 0
+    for hname, steps_, extra in histories:
+        env2.reset()
+        for i, prob in steps_:
+            ctx.seam.arm(draw_values(prob)["below"])
+            env2.step(ctx.actions[i])
+        for x in extra:
+            if x == "I":
+                env2.generate_initial_state()
+            else:
+                env2.reset()
+        env2.reset()
+        root2 = env2.current_state
+        out["second_episode_roots"] += 1
+        if root2.tensor.tobytes() == keys[0]:
+            continue
         res2 = explore(ctx, [], record_graph=True, root_state=root2.copy())
         keys2 = list(res2["seen"].keys())
         goal2 = {k for k, s in zip(keys2, res2["order"]) if model.goal(ctx.decode(k, s.tensor))}
@@ -463,8 +480,9 @@ def _scen_job(choice):
             out["violations"].append({"property": "C20", "kind": "goal_reaching_episode_after_reset_beats_advertised_score_upper_bound",
                                       "engine": "state_graph_dp", "choice": choice, "scenario": spec_to_json(spec),
                                       "detail": {"optimal_reward_of_an_episode_started_after_reset": best2,
-                                                 "advertised_upper_bound": ub,
-                                                 "note": "the environment's state after (episode, reset()) differs from the initial state"}})
+                                                 "advertised_upper_bound": ub, "history_before_the_episode": hname,
+                                                 "note": "the environment's state after this history and reset() differs from the initial state"}})
+            break
     if choice["fw_kind"] == "allow_all":
         min_comp = min(sum(1 for st in ctx.decode(k, res["order"][res["seen"][k]].tensor) if st[0]) for k in goal_keys)
         if hops > min_comp:
